@@ -359,3 +359,18 @@ func (o gateOp) OpName() string { return "gate" }
 
 // Wait parks the calling simulated goroutine until the gate is opened.
 func (g *Gate) Wait() { Trap(gateOp{g}, true) }
+
+// ChanCap is the capacity of a program queue created with make(chan T, n) (rewriting rule R7). Worlds that scale queue
+// capacities down (Config.ChanCapDiv > 1) get max(8, n/ChanCapDiv): "queue full" paths are reached with tens of
+// messages. 8 is kept as the floor because the program fills some queues before it starts the goroutine that drains
+// them (one entry per configured backend at start-up).
+func ChanCap(n int) int {
+	if K == nil || K.Cfg.ChanCapDiv <= 1 {
+		return n
+	}
+	c := n / K.Cfg.ChanCapDiv
+	if c < 8 {
+		c = 8
+	}
+	return c
+}
